@@ -466,7 +466,66 @@ def _inst(cls):
         return cls((1, 2))
 
 
+def _cheap_class(kind, n):
+    if kind == 'nt':  # satisfies every namedtuple trait
+        return type(f'Q{n}', (tuple,), {'_fields': ('a',), '_make': classmethod(lambda c, it: c(it)),
+                                        '_asdict': lambda self: {}, '__slots__': ()})
+    return type(f'Q{n}', (tuple,), {'_fields': ['a'], '_make': len, '_asdict': len, '__slots__': ()})
+
+
+def capacity_scenarios():
+    out = []
+    for first in ('nt', 'not-nt'):
+        for fill in (4000, 4096, 4097, 4300):
+            for rounds in (1, 2):
+                out.append({'capacity': first, 'fill': fill, 'rounds': rounds})
+    return out
+
+
+def capacity_scenario(ctx, c):
+    """Fill the classification caches to (around) their capacity with live classes of one kind, free
+    them all, then create a larger population of the OPPOSITE kind (re-using the freed addresses) and
+    demand engine == twin == ground truth for every one of them; repeat in alternation."""
+    ctx.count()
+    ctx.cls(tuple(sorted(c.items())))
+    kinds = [c['capacity'], 'not-nt' if c['capacity'] == 'nt' else 'nt']
+    n = 0
+    seen_ids = {}
+    reuse = 0
+    bad = []
+    for r in range(2 * c['rounds']):
+        kind = kinds[r % 2]
+        count = c['fill'] if r == 0 else 6000
+        live = []
+        for _ in range(count):
+            n += 1
+            cls = _cheap_class(kind, n)
+            if seen_ids.get(id(cls), kind) != kind:
+                reuse += 1
+            live.append(cls)
+        for cls in live:
+            want = kind == 'nt'
+            got = (optree.is_namedtuple_class(cls), optree.is_namedtuple_class.__python_implementation__(cls),
+                   optree.is_structseq_class(cls), optree.tree_structure(cls((1,))).kind.name)
+            if got != (want, want, False, 'NAMEDTUPLE' if want else 'LEAF'):
+                bad.append((r, kind, got))
+        for cls in live:
+            seen_ids[id(cls)] = kind
+        del live, cls
+        gc.collect()
+    ctx.extra['address-reuse-events-observed'] += reuse
+    ctx.extra['capacity-classes-created'] += n
+    if bad:
+        ctx.violation('cache-capacity', f'{PROP}:cache-history', c,
+                      f'{len(bad)} classes misclassified after the caches were filled and the classes freed '
+                      f'(address reuse across kinds observed {reuse} times): first {bad[:3]}')
+    ctx.outcome(f'capacity:reuse>0={reuse > 0}')
+
+
 def run_shard(ctx):
+    for i, c in enumerate(capacity_scenarios()):
+        if ctx.mine(i):
+            capacity_scenario(ctx, c)
     part_classes(ctx)
     part_sort(ctx, 3 if ctx.tier == 'quick' else 4)
     cfgs = e1.configs(ctx.tier, predicates=['none'])
